@@ -44,3 +44,12 @@ impl<F: Future> Future for PollBudget<F> {
         }
     }
 }
+
+/// tokio's worker threads - on which every request handler of the server binaries runs
+/// (`#[tokio::main]`, no `thread_stack_size`) - have 2 MiB stacks; the main thread of a
+/// harness process has 8 MiB.  Run `f` with the stack a handler really has.
+pub const TOKIO_WORKER_STACK: usize = 2 * 1024 * 1024;
+
+pub fn on_worker_stack<T: Send + 'static>(f: impl FnOnce() -> T + Send + 'static) -> std::thread::Result<T> {
+    std::thread::Builder::new().stack_size(TOKIO_WORKER_STACK).spawn(f).expect("spawn").join()
+}
